@@ -116,7 +116,7 @@ struct H {
     static rc::Gen<Case> gen() {
         using namespace rc;
         auto prefix = pbt::pick<std::string>({"", "", "x", "abc=", "0123456789abcdef", "[1,2,", "................................"});
-        auto reals  = gen::map(gen::tuple(numgen::double_gen(), pbt::range<unsigned>(0, 40), pbt::range<int>(0, 2), pbt::pick<int>({1, 1, 2, 4}), prefix,
+        auto reals  = gen::map(gen::tuple(numgen::double_gen(), pbt::range<unsigned>(0, 40), pbt::range<int>(0, 2), pbt::pick<int>({1, 1, 2, 4, 3}), prefix,
                                           pbt::range<int>(0, 9)),
                                [](std::tuple<numgen::Real, unsigned, int, int, std::string, int> t) {
                                   Case c;
@@ -133,19 +133,19 @@ struct H {
                                   c.prefix = std::get<4>(t);
                                   return c;
                               });
-        auto floats = gen::map(gen::tuple(numgen::float_gen(), pbt::range<unsigned>(0, 40), pbt::range<int>(0, 2), pbt::pick<int>({1, 2, 4}), prefix),
+        auto floats = gen::map(gen::tuple(numgen::float_gen(), pbt::range<unsigned>(0, 40), pbt::range<int>(0, 2), pbt::pick<int>({1, 2, 4, 3}), prefix),
                                [](std::tuple<numgen::Real, unsigned, int, int, std::string> t) {
                                    Case c;
                                    c.kind      = 1;
                                    c.bits      = std::get<0>(t).bits;
                                    c.cls       = std::get<0>(t).cls;
-                                   c.precision = std::get<1>(t) % 20;
+                                   c.precision = std::get<1>(t);
                                    c.format    = std::get<2>(t);
                                    c.width     = std::get<3>(t);
                                    c.prefix    = std::get<4>(t);
                                    return c;
                                });
-        auto ints   = gen::map(gen::tuple(pbt::range<int>(2, 9), numgen::int_bits_gen(), pbt::pick<int>({1, 2, 4}), prefix),
+        auto ints   = gen::map(gen::tuple(pbt::range<int>(2, 9), numgen::int_bits_gen(), pbt::pick<int>({1, 2, 4, 3}), prefix),
                                [](std::tuple<int, uint64_t, int, std::string> t) {
                                  Case c;
                                  c.kind   = std::get<0>(t);
@@ -162,11 +162,11 @@ struct H {
     static bool from_fuzz(const uint8_t *d, size_t n, Case &c) {
         pbt::FuzzBytes f(d, n);
         uint8_t        b0 = f.sel();
-        static const int w[] = {1, 2, 4, 1};
+        static const int w[] = {1, 2, 4, 3};
         c.format    = (b0 & 3) % 3;
         c.width     = w[(b0 >> 2) & 3];
         c.kind      = (b0 & 16) ? 1 : 0;
-        c.precision = f.sel() % (c.kind == 0 ? 41 : 20);
+        c.precision = f.sel() % 41;
         c.bits      = 0;
         for (int i = 0; i < (c.kind == 0 ? 8 : 4); ++i) {
             c.bits = (c.bits << 8) | f.sel();
@@ -231,6 +231,7 @@ struct H {
         switch (c.width) {
             case 1: run_width<char>(c, ctx); break;
             case 2: run_width<char16_t>(c, ctx); break;
+            case 3: run_width<wchar_t>(c, ctx); break;
             default: run_width<char32_t>(c, ctx); break;
         }
     }
@@ -272,6 +273,35 @@ struct H {
             ctx.exhaustive      = true;
             ctx.exhaustive_what = "every double with an odd significand part of at most " + std::to_string(nbits) +
                                   " bits in the binades below 1e-200 and above 1e200, precision 0..40, Default format";
+            return;
+        }
+        if (what == "tiny-floats") {
+            // every float with a bit pattern below 2^17 (the smallest subnormals: their exact values have up to 105 significant digits,
+            // far more than the precision asks for) and the 2^16 patterns around the smallest normal, at precision 24..40, three formats
+            Qentem::MemoryRecord::data().enabled = false;
+            ctx.max_samples                      = 4;
+            uint64_t idx = 0;
+            for (uint32_t b = 1; b < (1u << 17) + (1u << 16); ++b) {
+                if ((idx++ % nshards) != shard) {
+                    continue;
+                }
+                Case c;
+                c.kind  = 1;
+                c.bits  = (b < (1u << 17)) ? b : (0x00800000u - (1u << 15) + (b - (1u << 17)));
+                c.width = 1;
+                c.cls   = "tiny-floats";
+                for (unsigned prec = 24; prec <= 40; ++prec) {
+                    for (int f = 0; f < 3; ++f) {
+                        c.precision = prec;
+                        c.format    = f;
+                        if (pbt::exec_case_fast<H>(ctx, c) == pbt::Status::Fail) {
+                            return;
+                        }
+                    }
+                }
+            }
+            ctx.exhaustive      = true;
+            ctx.exhaustive_what = "floats with bit patterns 1 .. 2^17 and the 2^16 patterns around the smallest normal, precision 24..40, three formats";
             return;
         }
         if (what.compare(0, 5, "wide-") == 0) {
